@@ -88,6 +88,11 @@ structure Stats where
   loadFail : Nat := 0
   evictions : Nat := 0
   evictionWeight : Nat := 0
+  /-- removals of an already expired entry by an operation's own write/removal: the cache may equally have
+      swept it an instant earlier (then it counts as an eviction).  C20 allows both, so the oracle accepts
+      `evictions ≤ reported ≤ evictions + evictionsSlack` (likewise for the weight). -/
+  evictionsSlack : Nat := 0
+  evictionWeightSlack : Nat := 0
   deriving DecidableEq, Repr, Inhabited
 
 structure State where
@@ -224,11 +229,12 @@ def evict (cfg : Cfg) (s : State) (ev : Event) : Option State :=
     match ev.cause with
     | .expiration => if e.liveAt s.now then none else some s'
     | .overflow =>
+        -- (an expired-but-unswept entry evicted under size pressure may be reported as Overflow:
+        --  the policy does not look at the clock; the removal is still justified by the size bound)
         match s.maximum with
         | none => none
         | some mx =>
           if !cfg.bounded then none
-          else if !e.liveAt s.now then none      -- a dead entry must be reported as Expiration
           else if e.weight == 0 then none        -- zero-weight entries are pinned
           else if s.totalWeight > mx || e.weight > mx then some s' else none
     | _ => none
